@@ -31,6 +31,8 @@ def read_outputs(p, outdir, rels=None, prefix=""):
             rows = txt.split("\n")
             if rows and rows[-1] == "":
                 rows.pop()
+            if not r.types:
+                rows = ["" if x == "()" else x for x in rows]       # souffle writes the empty tuple of a nullary relation as ()
             res[r.name] = rows
     return res
 
